@@ -30,7 +30,7 @@ _ctxmod.logger = NoLog()
 def fault_libcst(kind: int, dry_run: bool, r1: bool, c1: bool, a1: bool, r2: bool, c2: bool, a2: bool, nf: int) -> bool:
     """LibcstTransformerPipeline.apply: a file that cannot be read, decoded, parsed or transformed is not
     written, is listed as failed with all its findings unfixed, and no exception escapes.
-    pre: 0 <= kind < 5 and 0 <= nf <= 2
+    pre: 0 <= kind < 4 and 0 <= nf <= 2
     post: _
     """
     fp, fc, o = skel.run_libcst(kind, dry_run, (r1, c1, a1), (r2, c2, a2), nf)
@@ -131,6 +131,15 @@ class SerialExecutor:
         pass
 
 
+def _install_serial():
+    """Serial, in-order executor: the scheduling stub of C11 with the identity completion order (it also serves
+    submit / as_completed / wait, should the code under test collect results that way)."""
+    from harness import c11
+
+    c11.install_executor(bc)
+    c11.SchedExecutor.ORDER = [0, 1, 2]
+
+
 def _mk_context(dry_run: bool, files):
     with NoTracing():
         ctx = CodemodExecutionContext(Path("/d"), dry_run, False, None, None, None, [], [], {}, 1)
@@ -153,7 +162,7 @@ def _run_codemod(kinds, dry_run: bool):
 
     cm = _StubCodemod(metadata=Metadata(name="stub", summary="s", review_guidance=ReviewGuidance.MERGE_WITHOUT_REVIEW, description="d"), transformer=LibcstTransformerPipeline(T))
     ctx = _mk_context(dry_run, files)
-    bc.ThreadPoolExecutor = SerialExecutor
+    _install_serial()
     exc = None
     try:
         cm.apply(ctx)
@@ -234,7 +243,7 @@ def _two_codemods(kinds, a_raises_on: int, dry_run: bool):
     A = _StubCodemod(metadata=md("a"), transformer=LibcstTransformerPipeline(TA))
     B = _StubCodemod(metadata=md("b"), transformer=LibcstTransformerPipeline(TB))
     ctx = _mk_context(dry_run, files)
-    bc.ThreadPoolExecutor = SerialExecutor
+    _install_serial()
     exc = None
     try:
         cmod.apply_codemods(ctx, [A, B])
